@@ -37,8 +37,9 @@ Fixpoint laplace_central (b : Qc) (j : nat) : Qc :=
   | S (S i as i1) => qnat (S i1) * qnat i1 * (b * b) * laplace_central b i
   end.
 
-Definition normal_moment (mu s2 : Qc) (k : nat) : Qc := shift mu (normal_central s2) k.
-Definition laplace_moment (mu b : Qc) (k : nat) : Qc := shift mu (laplace_central b) k.
+(* [shift_fast] = [shift] (DistBase.shift_fast_eq), evaluated in quadratic time *)
+Definition normal_moment (mu s2 : Qc) (k : nat) : Qc := shift_fast mu (normal_central s2) k.
+Definition laplace_moment (mu b : Qc) (k : nat) : Qc := shift_fast mu (laplace_central b) k.
 Definition gamma_moment (k theta : Qc) (p : nat) : Qc := qpow theta p * rising k p.
 Definition beta_moment (a b : Qc) (k : nat) : Qc := rising a k / rising (a + b) k.
 
@@ -90,11 +91,11 @@ Proof. destruct j as [|j]; [reflexivity|]. cbn [normal_central dseq]. ring. Qed.
 Lemma normal_moment_0 mu s2 : normal_moment mu s2 0 = 1.
 Proof. reflexivity. Qed.
 Lemma normal_moment_1 mu s2 : normal_moment mu s2 1 = mu.
-Proof. unfold normal_moment. cbn [shift normal_central]. ring. Qed.
+Proof. unfold normal_moment. rewrite shift_fast_eq. cbn [shift normal_central]. ring. Qed.
 Lemma normal_moment_rec mu s2 k :
   normal_moment mu s2 (S (S k)) = mu * normal_moment mu s2 (S k) + qnat (S k) * s2 * normal_moment mu s2 k.
 Proof.
-  unfold normal_moment.
+  unfold normal_moment. rewrite !shift_fast_eq.
   change (shift mu (normal_central s2) (S (S k)))
     with (mu * shift mu (normal_central s2) (S k) + shift mu (fun j => normal_central s2 (S j)) (S k)).
   rewrite (shift_ext mu (fun j => normal_central s2 (S j)) (dseq (fun i => s2 * normal_central s2 i)) (S k)
@@ -102,7 +103,7 @@ Proof.
   rewrite shift_dseq, shift_scale. ring.
 Qed.
 Lemma normal_moment_centred s2 k : normal_moment 0 s2 k = normal_central s2 k.
-Proof. apply shift_zero_loc. Qed.
+Proof. unfold normal_moment. rewrite shift_fast_eq. apply shift_zero_loc. Qed.
 
 (* closed form of the central moments: s2^i (2i-1)!! at 2i, 0 at odd orders *)
 Fixpoint odd_dfact (i : nat) : Qc := match i with O => 1 | S i' => qnat (S (2 * i')) * odd_dfact i' end.
@@ -126,16 +127,16 @@ Qed.
 Lemma laplace_moment_0 mu b : laplace_moment mu b 0 = 1.
 Proof. reflexivity. Qed.
 Lemma laplace_moment_1 mu b : laplace_moment mu b 1 = mu.
-Proof. unfold laplace_moment. cbn [shift laplace_central]. ring. Qed.
+Proof. unfold laplace_moment. rewrite shift_fast_eq. cbn [shift laplace_central]. ring. Qed.
 Lemma laplace_moment_rec mu b k :
   laplace_moment mu b (S (S k)) = qpow mu (S (S k)) + qnat (S (S k)) * qnat (S k) * (b * b) * laplace_moment mu b k.
 Proof.
-  unfold laplace_moment.
+  unfold laplace_moment. rewrite !shift_fast_eq.
   rewrite (shift_ext mu (laplace_central b) _ (S (S k)) (laplace_central_decomp b)).
   rewrite shift_add, shift_delta0, !shift_dseq, shift_scale. ring.
 Qed.
 Lemma laplace_moment_centred b k : laplace_moment 0 b k = laplace_central b k.
-Proof. apply shift_zero_loc. Qed.
+Proof. unfold laplace_moment. rewrite shift_fast_eq. apply shift_zero_loc. Qed.
 
 Lemma laplace_central_closed b i :
   laplace_central b (2 * i) = qfact (2 * i) * qpow b (2 * i) /\ laplace_central b (S (2 * i)) = 0.
